@@ -121,15 +121,17 @@ structure Empty0 (sep : Byte) (p : Path) : Prop where
   len : p.len = 0
   bin : p.binary = false
   hsep : p.sep = sep
-  store : p.hasArray = false ∨ (p.hasArray = true ∧ p.base = [] ∧ p.keepPost = false)
+  store : (p.hasArray = false ∧ p.base = [] ∧ p.keepPost = false) ∨ (p.hasArray = true ∧ p.base = [] ∧ p.keepPost = false)
 
 /-- the first element -/
-theorem pushElem_first {sep : Byte} {p : Path} (h : Empty0 sep p) (e : List Byte) (hne : e ≠ []) (hse : sep ∉ e) :
+theorem pushElem_first_ne {sep : Byte} {p : Path} (h : Empty0 sep p) (e : List Byte) (hne : e ≠ [] ∨ p.hasArray = true) (hse : sep ∉ e) :
     ∃ q, pushElem p e = .ok q ∧ ArrS sep q [e] := by
   have hfold : ∃ kp, e.foldl pushChar p = { p with base := e, hasArray := true, keepPost := kp } := by
-    rcases h.store with ha | ⟨ha, hb, hk⟩
+    rcases h.store with ⟨ha, _, _⟩ | ⟨ha, hb, hk⟩
     · cases e with
-      | nil => exact absurd rfl hne
+      | nil => rcases hne with h' | h'
+               · exact absurd rfl h'
+               · rw [ha] at h'; cases h'
       | cons c cs => exact ⟨true, pushChars_new c cs p ha h.off h.len⟩
     · refine ⟨!e.isEmpty, ?_⟩
       rw [pushChars_arr e p ha (by simp [h.off, h.len]) (Or.inr (by simp [h.off, h.len, hb]))]
@@ -338,7 +340,7 @@ structure EmptyB (p : Path) : Prop where
   off : p.off = 0
   len : p.len = 0
   bin : p.binary = true
-  store : p.hasArray = false ∨ (p.hasArray = true ∧ p.base = [] ∧ p.keepPost = false)
+  store : (p.hasArray = false ∧ p.base = [] ∧ p.keepPost = false) ∨ (p.hasArray = true ∧ p.base = [] ∧ p.keepPost = false)
 
 theorem elems_arrB {p : Path} {es : List (List Byte)} (h : ArrB p es) : elems p (es.length + 1) = .ok es := by
   obtain ⟨x, hx⟩ := h.base
@@ -407,12 +409,14 @@ theorem pushElem_bin {p : Path} {es : List (List Byte)} (h : ArrB p es) (hes : e
       · simp at h'; subst h'; exact hle
 
 /-- the first element (binary mode) -/
-theorem pushElem_bin_first {p : Path} (h : EmptyB p) (e : List Byte) (hne : e ≠ []) (hle : e.length ≤ 255) :
+theorem pushElem_bin_first_ne {p : Path} (h : EmptyB p) (e : List Byte) (hne : e ≠ [] ∨ p.hasArray = true) (hle : e.length ≤ 255) :
     ∃ q, pushElem p e = .ok q ∧ ArrB q [e] := by
   have hfold : ∃ kp, e.foldl pushChar p = { p with base := e, hasArray := true, keepPost := kp } := by
-    rcases h.store with ha | ⟨ha, hb, hk⟩
+    rcases h.store with ⟨ha, _, _⟩ | ⟨ha, hb, hk⟩
     · cases e with
-      | nil => exact absurd rfl hne
+      | nil => rcases hne with h' | h'
+               · exact absurd rfl h'
+               · rw [ha] at h'; cases h'
       | cons c cs => exact ⟨true, pushChars_new c cs p ha h.off h.len⟩
     · refine ⟨!e.isEmpty, ?_⟩
       rw [pushChars_arr e p ha (by simp [h.off, h.len]) (Or.inr (by simp [h.off, h.len, hb]))]
@@ -507,15 +511,56 @@ theorem pushElems_bin : ∀ (es' : List (List Byte)) {p : Path} {es : List (List
     obtain ⟨q', hq', hQ'⟩ := pushElems_bin es' hQ (by simp) (fun x hx => hs x (by simp [hx]))
     exact ⟨q', by simp only [pushElems, hq, hq'], by simpa using hQ'⟩
 
+/-- an empty element on a path without storage is added like on an emptied array backed path -/
+theorem pushElem_nil_noarray (p : Path) (ha : p.hasArray = false) (hb : p.base = []) (ho : p.off = 0) (hl : p.len = 0) :
+    pushElem p [] = pushElem { p with hasArray := true } [] := by
+  simp [pushElem, pathAdd, ha, hb, ho, hl]
+
+/-- the first element (any, also empty), separator mode -/
+theorem pushElem_first {sep : Byte} {p : Path} (h : Empty0 sep p) (e : List Byte) (hse : sep ∉ e) :
+    ∃ q, pushElem p e = .ok q ∧ ArrS sep q [e] := by
+  by_cases hne : e ≠ [] ∨ p.hasArray = true
+  · exact pushElem_first_ne h e hne hse
+  · have he : e = [] := by
+      refine Classical.byContradiction fun h' => hne (Or.inl h')
+    have ha : p.hasArray = false := by
+      cases hh : p.hasArray with
+      | false => rfl
+      | true => exact absurd (Or.inr hh) hne
+    subst he
+    rcases h.store with ⟨_, hb, hk⟩ | ⟨ha', _, _⟩
+    · rw [pushElem_nil_noarray p ha hb h.off h.len]
+      exact pushElem_first_ne (p := { p with hasArray := true }) ⟨h.off, h.len, h.bin, h.hsep, Or.inr ⟨rfl, hb, hk⟩⟩ []
+        (Or.inr rfl) hse
+    · rw [ha] at ha'; cases ha'
+
+/-- the first element (any, also empty), binary mode -/
+theorem pushElem_bin_first {p : Path} (h : EmptyB p) (e : List Byte) (hle : e.length ≤ 255) :
+    ∃ q, pushElem p e = .ok q ∧ ArrB q [e] := by
+  by_cases hne : e ≠ [] ∨ p.hasArray = true
+  · exact pushElem_bin_first_ne h e hne hle
+  · have he : e = [] := by
+      refine Classical.byContradiction fun h' => hne (Or.inl h')
+    have ha : p.hasArray = false := by
+      cases hh : p.hasArray with
+      | false => rfl
+      | true => exact absurd (Or.inr hh) hne
+    subst he
+    rcases h.store with ⟨_, hb, hk⟩ | ⟨ha', _, _⟩
+    · rw [pushElem_nil_noarray p ha hb h.off h.len]
+      exact pushElem_bin_first_ne (p := { p with hasArray := true }) ⟨h.off, h.len, h.bin, Or.inr ⟨rfl, hb, hk⟩⟩ []
+        (Or.inr rfl) hle
+    · rw [ha] at ha'; cases ha'
+
 /-! ### whole paths -/
 
 /-- building in separator mode: the path holds exactly the elements -/
-theorem build_sep (sep assign : Byte) (e0 : List Byte) (es : List (List Byte)) (h0 : e0 ≠ [])
+theorem build_sep (sep assign : Byte) (e0 : List Byte) (es : List (List Byte))
     (hs : ∀ e ∈ e0 :: es, sep ∉ e) :
     ∃ p, pushElems (emptyPath sep assign false) (e0 :: es) = .ok p ∧ ArrS sep p (e0 :: es) ∧
       elems p ((joinSep sep (e0 :: es)).length + 2) = .ok (e0 :: es) := by
-  have hE : Empty0 sep (emptyPath sep assign false) := ⟨rfl, rfl, rfl, rfl, Or.inl rfl⟩
-  obtain ⟨q, hq, hQ⟩ := pushElem_first hE e0 h0 (hs e0 (by simp))
+  have hE : Empty0 sep (emptyPath sep assign false) := ⟨rfl, rfl, rfl, rfl, Or.inl ⟨rfl, rfl, rfl⟩⟩
+  obtain ⟨q, hq, hQ⟩ := pushElem_first hE e0 (hs e0 (by simp))
   obtain ⟨q', hq', hQ'⟩ := pushElems_sep es hQ (by simp) (fun e he => hs e (by simp [he]))
   refine ⟨q', by simp only [pushElems, hq, hq'], by simpa using hQ', ?_⟩
   obtain ⟨x, hS⟩ := hQ'.sp
@@ -523,12 +568,12 @@ theorem build_sep (sep assign : Byte) (e0 : List Byte) (es : List (List Byte)) (
   simp
 
 /-- building in binary length mode: the path holds exactly the elements -/
-theorem build_bin (sep assign : Byte) (e0 : List Byte) (es : List (List Byte)) (h0 : e0 ≠ [])
+theorem build_bin (sep assign : Byte) (e0 : List Byte) (es : List (List Byte))
     (hs : ∀ e ∈ e0 :: es, e.length ≤ 255) :
     ∃ p, pushElems (emptyPath sep assign true) (e0 :: es) = .ok p ∧ ArrB p (e0 :: es) ∧
       elems p ((e0 :: es).length + 1) = .ok (e0 :: es) := by
-  have hE : EmptyB (emptyPath sep assign true) := ⟨rfl, rfl, rfl, Or.inl rfl⟩
-  obtain ⟨q, hq, hQ⟩ := pushElem_bin_first hE e0 h0 (hs e0 (by simp))
+  have hE : EmptyB (emptyPath sep assign true) := ⟨rfl, rfl, rfl, Or.inl ⟨rfl, rfl, rfl⟩⟩
+  obtain ⟨q, hq, hQ⟩ := pushElem_bin_first hE e0 (hs e0 (by simp))
   obtain ⟨q', hq', hQ'⟩ := pushElems_bin es hQ (by simp) (fun e he => hs e (by simp [he]))
   have hQ'' : ArrB q' (e0 :: es) := by simpa using hQ'
   exact ⟨q', by simp only [pushElems, hq, hq'], hQ'', elems_arrB hQ''⟩
